@@ -38,13 +38,13 @@ Check C12_self_dependency : forall fuel e me ts w,
 Print Assumptions C12_self_dependency.
 
 (* a recorded dependency chain that comes back to a file being checked *)
-Theorem C12_check_cycle : forall fuel runid w c f mx seen,
+Theorem C12_check_cycle : forall fuel runid w c f r mx seen,
   existsb (Nat.eqb f) seen = true ->
-  is_dirty (S fuel) runid w c f mx seen = Ret (VCycle, w, c, []).
+  is_dirty (S fuel) runid w c f r mx seen = Ret (VCycle, w, c, []).
 Proof. exact is_dirty_cycle_detected. Qed.
-Check C12_check_cycle : forall fuel runid w c f mx seen,
+Check C12_check_cycle : forall fuel runid w c f r mx seen,
   existsb (Nat.eqb f) seen = true ->
-  is_dirty (S fuel) runid w c f mx seen = Ret (VCycle, w, c, []).
+  is_dirty (S fuel) runid w c f r mx seen = Ret (VCycle, w, c, []).
 Print Assumptions C12_check_cycle.
 
 Definition C12_full_statement : Prop :=
